@@ -53,6 +53,7 @@ struct plain_kind
 {
     static char const* name() { return "plain"; }
     template <typename E> struct types { typedef decltype(hep::make_plain_chkpt<T, E>(E())) chk; };
+    typedef hep::plain_chkpt<T> base; // the checkpoint type without the generators (what examples instantiate the callback with)
     template <typename E> static typename types<E>::chk fresh(E const& e, int) { return hep::make_plain_chkpt<T, E>(e); }
     template <typename E> static typename types<E>::chk load(std::istream& in) { return hep::make_plain_chkpt<T, E>(in); }
     template <typename C> static void prepare(C&) {}
@@ -81,6 +82,7 @@ struct vegas_kind
 {
     static char const* name() { return "vegas"; }
     template <typename E> struct types { typedef decltype(hep::make_vegas_chkpt<T, E>(8, T(1.5), E())) chk; };
+    typedef hep::vegas_chkpt<T> base;
     template <typename E> static typename types<E>::chk fresh(E const& e, int variant)
     {
         if (variant == 0) return hep::make_vegas_chkpt<T, E>(8, T(1.5), e);
@@ -154,6 +156,7 @@ struct mc_kind
 {
     static char const* name() { return "mc"; }
     template <typename E> struct types { typedef decltype(hep::make_multi_channel_chkpt<T, E>(T(), T(0.25), E())) chk; };
+    typedef hep::multi_channel_chkpt<T> base;
     template <typename E> static typename types<E>::chk fresh(E const& e, int variant)
     {
         if (variant == 0) return hep::make_multi_channel_chkpt<T, E>(T(0.02), T(0.25), e);
@@ -221,6 +224,9 @@ struct logging_cb
 {
     ctx* x;
     hep::callback<C> inner;
+    // the same built-in callback instantiated with the base checkpoint type: what it writes to its file is the whole checkpoint all the same
+    hep::callback<typename K::base> inner_base;
+    bool use_base;
     std::vector<std::size_t> const* calls;
     std::size_t* index; // index into calls of the iteration that just finished
     bool* last;         // what the wrapped callback returned last
@@ -234,7 +240,7 @@ struct logging_cb
         ++x->iter;
         x->used_ok = true;
         K::expect(*x, c);
-        *last = inner(c);
+        *last = use_base ? inner_base(c) : inner(c);
         return *last;
     }
 };
@@ -265,7 +271,8 @@ struct session
         x.iter = (long) c.results().size();
         x.used_ok = true;
         K::expect(x, c);
-        logging_cb<K, C> cb{&x, hep::callback<C>(write_file ? hep::callback_mode::silent_and_write_chkpt : hep::callback_mode::silent, file, target),
+        hep::callback_mode const mode = write_file ? hep::callback_mode::silent_and_write_chkpt : hep::callback_mode::silent;
+        logging_cb<K, C> cb{&x, hep::callback<C>(mode, file, target), hep::callback<typename K::base>(mode, file, target), calls.size() % 2 == 0,
             &calls, &index, &stopped};
         stopped = true;
         C r = K::run(x, c, calls, cb);
@@ -327,6 +334,17 @@ struct session
         bool stopped = false;
         c = segment(c, calls, t_none, false, stopped);
         if (reload_first) c = reload(c, t_text);
+        // every other history: the checkpoint is first copy-assigned onto an existing checkpoint object that started from a different
+        // first grid / other first weights - the copy is the same checkpoint in every respect
+        C other = K::fresh(seed_engine, variant == 1 ? 0 : 1);
+        K::prepare(other);
+        if (k % 2 == 0) { other = c; return rollback_tail(other, calls, k, resume_calls, stopped); }
+        return rollback_tail(c, calls, k, resume_calls, stopped);
+    }
+
+    void rollback_tail(C& c, std::vector<std::size_t> const& calls, std::size_t k, std::vector<std::size_t> const& resume_calls, bool stopped)
+    {
+        (void) calls;
         bool threw = false;
         try { c.rollback(k); } catch (std::out_of_range const&) { threw = true; }
         C probe = c;
